@@ -305,6 +305,12 @@ def weave(src, vspecs, vacuity=False):
             elif head.strip() == '@hint start':
                 text, metas = _mk(lines, fnid, 'hint', e['props'])
                 edits.append(Edit(sig_end + 1, '\n' + text + '\n', 4, [None] + metas + [None]))
+            elif head.strip() == '@hint tail':
+                # before the trailing expression of the body (after the last ';' or '}' inside the body)
+                inner = src[sig_end + 1:body_close]
+                at = sig_end + 1 + max(inner.rfind(';'), inner.rfind('}')) + 1
+                text, metas = _mk(lines, fnid, 'hint', e['props'])
+                edits.append(Edit(at, '\n' + text + '\n', 6, [None] + metas + [None]))
             elif head.startswith('@hint '):
                 m = re.match(r'@hint (after|before) (\d+) :: (.*)$', head)
                 if not m:
